@@ -63,13 +63,17 @@ def killOverlap (ivs inner : List (Nat × Nat)) (i j : Nat) : Bool :=
 def greedyAnoms (ivs inner : List (Nat × Nat)) (thr : α) (fuel : Nat) (scores : List α) : List (Nat × Nat) :=
   (greedyGen (killOverlap ivs inner) thr fuel scores).map (fun i => inner.getD i (0, 0))
 
-/-- `run_circular_binseg` (repaired: candidate-less intervals are skipped with score 0 and argmax (0,0)) -/
+/-- one row of `run_circular_binseg`'s table: best inner interval of a candidate and its score
+    (repaired: candidate-less intervals are skipped with score 0 and argmax (0,0)) -/
+def cbsRow (las : Nat → Nat → Nat → Nat → α) (m : Nat) (iv : Nat × Nat) : (Nat × Nat) × α :=
+  match argmaxCands (fun c => las iv.1 c.1 c.2 iv.2) (anomalyIntervals iv.1 iv.2 m) with
+  | none => ((0, 0), (0 : α))
+  | some r => r
+
+/-- `run_circular_binseg` -/
 def runCbs (las : Nat → Nat → Nat → Nat → α) (m : Nat) (thr : α) (ivs : List (Nat × Nat)) :
     List ((Nat × Nat) × α) × List (Nat × Nat) :=
-  let rows := ivs.map (fun iv =>
-    match argmaxCands (fun c => las iv.1 c.1 c.2 iv.2) (anomalyIntervals iv.1 iv.2 m) with
-    | none => ((0, 0), (0 : α))
-    | some r => r)
+  let rows := ivs.map (cbsRow las m)
   let picks := greedyAnoms ivs (rows.map (·.1)) thr ivs.length (rows.map (·.2))
   (rows, picks.mergeSort (fun a b => decide (a.1 < b.1 ∨ (a.1 = b.1 ∧ a.2 ≤ b.2))))
 
